@@ -136,4 +136,435 @@ theorem accept_skel : ∀ f : Nat,
             rw [ih3 _ _ _ _ h2]; exact skelL_set' cs i ch ch' hch hs
         · exact ih3 cs (i + 1) es r h
 
+
+-- ------------------------------------------------------------------ the odometer
+mutual
+  /-- number of choice combinations below a list -/
+  def cap : VT → Nat
+    | .simple _ _ => 1
+    | .mult .or _ cs => (cs.length + 2) * capL cs
+    | .mult .and _ cs => capL cs
+    | .mult .andor _ cs => capL cs
+  def capL : List VT → Nat
+    | [] => 1
+    | c :: cs => cap c * capL cs
+end
+
+/-- the `choice` of an OrList with `n` children as a digit: 0 = none yet, `i + 1` = child `i`, `n + 1` = LISTEND -/
+def digit (c : Int) (n : Nat) : Nat :=
+  if c = listEnd then n + 1 else if c < 0 then 0 else min (c.toNat + 1) (n + 1)
+
+mutual
+  /-- the choices of all OrLists as one mixed-radix number -/
+  def val : ST → Nat
+    | .simple .. => 0
+    | .mult .or _ c _ _ cs => digit c cs.length * capL (skelL cs) + valL cs
+    | .mult .and _ _ _ _ cs => valL cs
+    | .mult .andor _ _ _ _ cs => valL cs
+  def valL : List ST → Nat
+    | [] => 0
+    | c :: cs => val c * capL (skelL cs) + valL cs
+end
+
+theorem digit_le (c : Int) (n : Nat) : digit c n ≤ n + 1 := by
+  unfold digit; split
+  · exact Nat.le_refl _
+  · split
+    · omega
+    · exact Nat.min_le_right _ _
+
+mutual
+  theorem cap_pos : ∀ (t : VT), 0 < cap t
+    | .simple _ _ => by simp [cap]
+    | .mult .or _ cs => by simp only [cap]; exact Nat.mul_pos (by omega) (capL_pos cs)
+    | .mult .and _ cs => by simp only [cap]; exact capL_pos cs
+    | .mult .andor _ cs => by simp only [cap]; exact capL_pos cs
+  theorem capL_pos : ∀ (cs : List VT), 0 < capL cs
+    | [] => by simp [capL]
+    | c :: cs => by simp only [capL]; exact Nat.mul_pos (cap_pos c) (capL_pos cs)
+end
+
+theorem lt_mul_of_digit {d D K r : Nat} (hd : d < D) (hr : r < K) : d * K + r < D * K := by
+  calc d * K + r < d * K + K := by omega
+    _ = (d + 1) * K := by rw [Nat.add_mul, Nat.one_mul]
+    _ ≤ D * K := Nat.mul_le_mul_right K hd
+
+theorem skelL_length (cs : List ST) : (skelL cs).length = cs.length := by simp [skelL_eq_map]
+
+mutual
+  theorem val_lt_cap : ∀ (t : ST), val t < cap (skel t)
+    | .simple n v im => by simp [val, skel, cap]
+    | .mult .or v c c1 k cs => by
+      simp only [val, skel, cap, skelL_length]
+      exact lt_mul_of_digit (Nat.lt_succ_of_le (digit_le c cs.length)) (valL_lt_capL cs)
+    | .mult .and v c c1 k cs => by simp only [val, skel, cap]; exact valL_lt_capL cs
+    | .mult .andor v c c1 k cs => by simp only [val, skel, cap]; exact valL_lt_capL cs
+  theorem valL_lt_capL : ∀ (cs : List ST), valL cs < capL (skelL cs)
+    | [] => by simp [valL, skelL, capL]
+    | c :: cs => by
+      simp only [valL, skelL, capL]
+      exact lt_mul_of_digit (val_lt_cap c) (valL_lt_capL cs)
+end
+
+/-- the first position where two child lists differ holds a greater value in the second -/
+def AdvAt (p : Nat) (cs cs' : List ST) : Prop :=
+  (∀ k, k < p → cs'[k]? = cs[k]?) ∧ ∃ a a', cs[p]? = some a ∧ cs'[p]? = some a' ∧ val a < val a'
+
+theorem valL_adv : ∀ (p : Nat) (cs cs' : List ST), skelL cs' = skelL cs → AdvAt p cs cs' → valL cs < valL cs'
+  | p, [], cs', _, ⟨_, a, _, ha, _, _⟩ => by simp at ha
+  | p, c :: cs, [], hs, _ => by simp [skelL] at hs
+  | 0, c :: cs, c' :: cs', hs, ⟨_, a, a', ha, ha', hlt⟩ => by
+    simp only [List.getElem?_cons_zero, Option.some.injEq] at ha ha'
+    subst ha; subst ha'
+    simp only [skelL, List.cons.injEq] at hs
+    simp only [valL, hs.2]
+    have h1 := valL_lt_capL cs
+    have h2 : val c * capL (skelL cs) + valL cs < val c' * capL (skelL cs) := lt_mul_of_digit hlt h1
+    omega
+  | p + 1, c :: cs, c' :: cs', hs, ⟨hpre, a, a', ha, ha', hlt⟩ => by
+    simp only [skelL, List.cons.injEq] at hs
+    have h0 := hpre 0 (by omega)
+    simp only [List.getElem?_cons_zero, Option.some.injEq] at h0
+    subst h0
+    have := valL_adv p cs cs' hs.2 ⟨fun k hk => by simpa using hpre (k + 1) (by omega), a, a',
+      by simpa using ha, by simpa using ha', hlt⟩
+    simp only [valL, hs.2]
+    omega
+
+
+theorem firstCand_le (cs : List ST) : ∀ (s i : Nat), firstCand cs s = some i → i ≤ s := by
+  intro s
+  induction s with
+  | zero =>
+    intro i h
+    unfold firstCand at h
+    split at h
+    · split at h
+      · simp at h; omega
+      · simp at h
+    · simp at h
+  | succ k ih =>
+    intro i h
+    unfold firstCand at h
+    split at h
+    · split at h
+      · simp at h; omega
+      · have := ih i h; omega
+    · have := ih i h; omega
+
+theorem nextCands_gt (cs : List ST) (i j : Nat) (h : j ∈ nextCands cs i) : i < j := by
+  simp only [nextCands, List.mem_filter, Bool.and_eq_true, decide_eq_true_eq] at h
+  exact h.2.1
+
+theorem acceptOr_ge : ∀ (f : Nat) (cs : List ST) (i : Nat) (es : Ents) (r : List ST × Ents × Option Nat),
+    acceptOr f cs i es = .ok r → ∀ j, r.2.2 = some j → i ≤ j ∧ j < cs.length := by
+  intro f
+  induction f with
+  | zero => intro cs i es r h; simp [acceptOr] at h
+  | succ f ih =>
+    intro cs i es r h j hj
+    simp only [acceptOr] at h
+    split at h
+    · cases h; cases hj
+    · rename_i ch hch
+      have hl : i < cs.length := (List.getElem?_eq_some_iff.mp hch).1
+      split at h
+      · obtain ⟨⟨ch', es1, r1⟩, h1, h2⟩ := bind_ok' h
+        cases r1 with
+        | true => simp only [if_true] at h2; cases h2; cases hj; exact ⟨Nat.le_refl _, hl⟩
+        | false =>
+          simp only [Bool.false_eq_true, if_false] at h2
+          have := ih _ _ _ _ h2 j hj
+          simp only [List.length_set] at this
+          exact ⟨by omega, this.2⟩
+      · have := ih _ _ _ _ h j hj
+        exact ⟨by omega, this.2⟩
+
+-- every OrList has fewer children than `LISTEND` (otherwise `choice + 1` can *be* LISTEND and `acceptChoice`
+-- starts over at `choice1`)
+mutual
+  def smallOr : VT → Prop
+    | .simple _ _ => True
+    | .mult j _ cs => (j = .or → (cs.length : Int) < listEnd) ∧ smallOrL cs
+  def smallOrL : List VT → Prop
+    | [] => True
+    | c :: cs => smallOr c ∧ smallOrL cs
+end
+
+theorem smallOrL_mem {cs : List ST} {i : Nat} {ch : ST} (h : smallOrL (skelL cs)) (hc : cs[i]? = some ch) :
+    smallOr (skel ch) := by
+  induction cs generalizing i with
+  | nil => simp at hc
+  | cons c cs ih =>
+    simp only [skelL, smallOrL] at h
+    cases i with
+    | zero => simp at hc; subst hc; exact h.1
+    | succ i => exact ih h.2 (by simpa using hc)
+
+theorem digit_inRange {c : Int} {n i : Nat} (h : inRange c n = some i) (hs : (n : Int) < listEnd) :
+    digit c n = i + 1 ∧ i < n ∧ c = (i : Int) := by
+  unfold inRange at h
+  split at h
+  · rename_i hc
+    simp only [Option.some.injEq] at h
+    have hci : c = (i : Int) := by omega
+    refine ⟨?_, by omega, hci⟩
+    unfold digit
+    have h1 : c ≠ listEnd := by omega
+    have h2 : ¬ c < 0 := by omega
+    simp only [h1, h2, if_false]
+    subst hci
+    simp only [Int.toNat_natCast]
+    omega
+  · cases h
+
+theorem digit_nat {j n : Nat} (h : j < n) (hs : (n : Int) < listEnd) : digit (j : Int) n = j + 1 := by
+  unfold digit
+  have h1 : (j : Int) ≠ listEnd := by omega
+  have h2 : ¬ (j : Int) < 0 := by omega
+  simp only [h1, h2, if_false, Int.toNat_natCast]
+  omega
+
+/-- `acceptChoice` on an OrList whose `choice` selects child `i0`: on success the new choice is at or behind `i0` -/
+theorem accept_or_choice (f : Nat) (v : MT) (c0 c1 : Int) (k : Nat) (cs : List ST) (es : Ents) (node : ST) (es' : Ents)
+    (h : acceptChoice f (.mult .or v c0 c1 k cs) es = .ok (node, es', true)) (hne : c0 ≠ listEnd) (i0 : Nat)
+    (hi : inRange c0 cs.length = some i0) :
+    ∃ (j : Nat) (cs' : List ST), node = .mult .or v (j : Int) c1 k cs' ∧ i0 ≤ j ∧ j < cs.length ∧ skelL cs' = skelL cs := by
+  cases f with
+  | zero => simp [acceptChoice] at h
+  | succ f =>
+    simp only [acceptChoice, hne, if_false, hi] at h
+    obtain ⟨⟨cs', es1, r⟩, h1, h2⟩ := bind_ok' h
+    cases r with
+    | none =>
+      simp only [pure, Outcome.ok.injEq, Prod.mk.injEq] at h2
+      exact absurd h2.2.2 (by simp)
+    | some j =>
+      simp only [pure, Outcome.ok.injEq, Prod.mk.injEq] at h2
+      obtain ⟨hn, _, _⟩ := h2
+      obtain ⟨hj1, hj2⟩ := acceptOr_ge f cs i0 es _ h1 j rfl
+      exact ⟨j, cs', hn.symm, hj1, hj2, (accept_skel f).2.2 cs i0 es _ h1⟩
+
+
+theorem getElem?_set_other {α : Type} (l : List α) (i k : Nat) (a : α) (h : k ≠ i) : (l.set i a)[k]? = l[k]? := by
+  rw [List.getElem?_set_ne (Ne.symm h)]
+
+theorem ite_bind_ok {α β : Type} {c : Prop} [Decidable c] {a b : Outcome α} {k : α → Outcome β} {r : β}
+    (h : (if c then a >>= k else b >>= k) = .ok r) : ∃ x, (if c then a else b) = .ok x ∧ k x = .ok r := by
+  split at h
+  · rename_i hc; obtain ⟨x, h1, h2⟩ := bind_ok' h; exact ⟨x, by simp [hc, h1], h2⟩
+  · rename_i hc; obtain ⟨x, h1, h2⟩ := bind_ok' h; exact ⟨x, by simp [hc, h1], h2⟩
+
+def Moved (r : MT) : Prop := r = .newchoice ∨ r = .all
+
+/-- **The odometer**: `tryNext` keeps the skeleton, and whenever it reports NEWCHOICE or MATCHALL the mixed-radix
+number of the OR choices has grown. -/
+theorem trynext_val : ∀ f : Nat,
+    (∀ t es r, tryNext f t es = .ok r → smallOr (skel t) → skel r.1 = skel t ∧ (Moved r.2.2 → val t < val r.1)) ∧
+    (∀ cs start es r, tryBack f cs start es = .ok r → smallOrL (skelL cs) →
+      skelL r.1 = skelL cs ∧ (Moved r.2.2 → ∃ p, p ≤ start ∧ AdvAt p cs r.1)) ∧
+    (∀ cs js es r, tryFwd f cs js es = .ok r → skelL r.1 = skelL cs ∧ ∀ k, k ∉ js → r.1[k]? = cs[k]?) := by
+  intro f
+  induction f with
+  | zero =>
+    exact ⟨fun _ _ _ h => by simp [tryNext] at h, fun _ _ _ _ h => by simp [tryBack] at h,
+      fun _ _ _ _ h => by simp [tryFwd] at h⟩
+  | succ f ih =>
+    obtain ⟨ih1, ih2, ih3⟩ := ih
+    refine ⟨?_, ?_, ?_⟩
+    -- ---------------------------------------------------------- tryNext
+    · intro t es r h hsm
+      cases t with
+      | simple n v im => simp [tryNext] at h
+      | mult j v c c1 k cs =>
+        have hsmL : smallOrL (skelL cs) := by simp only [skel, smallOr] at hsm; exact hsm.2
+        cases j with
+        | or =>
+          have hlen : (cs.length : Int) < listEnd := by
+            simp only [skel, smallOr, skelL_length] at hsm; exact hsm.1 trivial
+          simp only [tryNext] at h
+          split at h
+          · cases h; exact ⟨rfl, fun hm => by rcases hm with e | e <;> cases e⟩
+          · rename_i hnle
+            split at h
+            · cases h
+            · rename_i i hir
+              split at h
+              · cases h
+              · rename_i ch hch
+                obtain ⟨hdig, hilt, hci⟩ := digit_inRange hir hlen
+                -- the recursive step into the selected child
+                have hstep : ∀ (r1 : ST × Ents × MT),
+                    (if (!ch.isSimple) = true then tryNext f ch es else pure (ch, es, MT.nomore)) = .ok r1 →
+                    skel r1.1 = skel ch ∧ ((!ch.isSimple) = true → Moved r1.2.2 → val ch < val r1.1) := by
+                  intro r1 h1
+                  split at h1
+                  · have := ih1 ch es r1 h1 (smallOrL_mem hsmL hch)
+                    exact ⟨this.1, fun _ => this.2⟩
+                  · rename_i hs
+                    cases h1; exact ⟨rfl, fun h' => absurd h' hs⟩
+                obtain ⟨⟨ch1, es1, r1⟩, h1, h2⟩ := ite_bind_ok h
+                obtain ⟨hs1, hv1⟩ := hstep _ h1
+                have hsk1 : skelL (cs.set i ch1) = skelL cs := skelL_set' cs i ch ch1 hch hs1
+                have hadv : (!ch.isSimple) = true → Moved r1 →
+                    val (ST.mult .or v c c1 k cs) < val (ST.mult .or v c c1 k (cs.set i ch1)) := by
+                  intro hns hm
+                  simp only [val, List.length_set, hsk1]
+                  have := valL_adv i cs (cs.set i ch1) hsk1
+                    ⟨fun k' hk' => getElem?_set_other cs i k' ch1 (by omega), ch, ch1, hch,
+                      by simp [hilt], hv1 hns hm⟩
+                  omega
+                simp only at h2
+                split at h2
+                · rename_i hc1
+                  cases h2
+                  simp only [Bool.and_eq_true, decide_eq_true_eq] at hc1
+                  exact ⟨by simp only [skel]; rw [hsk1], fun _ => hadv hc1.1 (Or.inr hc1.2)⟩
+                · split at h2
+                  · rename_i _ hc2
+                    cases h2
+                    simp only [Bool.and_eq_true, decide_eq_true_eq] at hc2
+                    exact ⟨by simp only [skel]; rw [hsk1], fun _ => hadv hc2.1 (Or.inl hc2.2)⟩
+                  · obtain ⟨⟨ch2, es2⟩, h3, h4⟩ := bind_ok' h2
+                    have hs2 := (unmark_skel f).1 ch1 es1 _ h3
+                    have hch1 : (cs.set i ch1)[i]? = some ch1 := by simp [hilt]
+                    have hsk2 : skelL ((cs.set i ch1).set i ch2) = skelL cs := by
+                      rw [skelL_set' _ i ch1 ch2 hch1 hs2, hsk1]
+                    simp only at h4
+                    split at h4
+                    · cases h4
+                      exact ⟨by simp only [skel]; rw [hsk2], fun hm => by rcases hm with e | e <;> cases e⟩
+                    · obtain ⟨⟨node, es3, b⟩, h5, h6⟩ := bind_ok' h4
+                      have hsn := (accept_skel f).1 _ es2 _ h5
+                      have hskn : skel node = skel (ST.mult .or v c c1 k cs) := by
+                        rw [hsn]; simp only [skel]; rw [hsk2]
+                      simp only at h6
+                      cases b with
+                      | false =>
+                        simp only [Bool.false_eq_true, if_false] at h6; cases h6
+                        exact ⟨hskn, fun hm => by rcases hm with e | e <;> cases e⟩
+                      | true =>
+                        simp only [if_true] at h6
+                        have hmove : val (ST.mult .or v c c1 k cs) < val node := by
+                          have hne1 : c + 1 ≠ listEnd := by omega
+                          have hlen2 : ((cs.set i ch1).set i ch2).length = cs.length := by simp
+                          have hir2 : inRange (c + 1) ((cs.set i ch1).set i ch2).length = some (i + 1) ∨
+                              inRange (c + 1) ((cs.set i ch1).set i ch2).length = none := by
+                            unfold inRange
+                            rw [hlen2, hci]
+                            by_cases hb : i + 1 < cs.length
+                            · left
+                              have : (0 : Int) ≤ (i : Int) + 1 ∧ (i : Int) + 1 < (cs.length : Int) := ⟨by omega, by omega⟩
+                              simp only [this, and_self, if_true]
+                              try (congr 1 <;> omega)
+                            · right
+                              have : ¬ ((0 : Int) ≤ (i : Int) + 1 ∧ (i : Int) + 1 < (cs.length : Int)) := by omega
+                              simp only [this, if_false]
+                          rcases hir2 with hir2 | hir2
+                          · obtain ⟨j, cs', hnode, hj1, hj2, hskj⟩ := accept_or_choice f v (c + 1) c1 k _ es2 node es3 h5 hne1 (i + 1) hir2
+                            rw [hlen2] at hj2
+                            subst hnode
+                            have hlen' : cs'.length = cs.length := by
+                              have := length_of_skelL (hskj.trans hsk2); exact this
+                            simp only [val, hlen', hskj, hsk2]
+                            rw [hdig, digit_nat hj2 hlen]
+                            have h1' := valL_lt_capL cs
+                            have : (i + 1) * capL (skelL cs) + valL cs < (j + 1) * capL (skelL cs) :=
+                              lt_mul_of_digit (by omega) h1'
+                            omega
+                          · -- no child behind the selected one: acceptChoice fails
+                            exfalso
+                            cases f with
+                            | zero => simp [acceptChoice] at h5
+                            | succ f' =>
+                              simp only [acceptChoice, hne1, if_false, hir2] at h5
+                              simp only [Outcome.ok.injEq, Prod.mk.injEq] at h5
+                              exact absurd h5.2.2 (by simp)
+                        split at h6
+                        · cases h6; exact ⟨hskn, fun _ => hmove⟩
+                        · cases h6; exact ⟨hskn, fun _ => hmove⟩
+        | and =>
+          simp only [tryNext] at h
+          split at h
+          · split at h
+            · cases h; exact ⟨rfl, fun hm => by rcases hm with e | e <;> cases e⟩
+            · cases h
+          · obtain ⟨⟨cs', es', r'⟩, h1, h2⟩ := bind_ok' h
+            cases h2
+            obtain ⟨hs, hm⟩ := ih2 cs _ es _ h1 hsmL
+            refine ⟨by simp only [skel]; rw [hs], fun hmv => ?_⟩
+            obtain ⟨p, _, hp⟩ := hm hmv
+            simp only [val]; exact valL_adv p cs cs' hs hp
+        | andor =>
+          simp only [tryNext] at h
+          split at h
+          · split at h
+            · cases h; exact ⟨rfl, fun hm => by rcases hm with e | e <;> cases e⟩
+            · cases h
+          · obtain ⟨⟨cs', es', r'⟩, h1, h2⟩ := bind_ok' h
+            cases h2
+            obtain ⟨hs, hm⟩ := ih2 cs _ es _ h1 hsmL
+            refine ⟨by simp only [skel]; rw [hs], fun hmv => ?_⟩
+            obtain ⟨p, _, hp⟩ := hm hmv
+            simp only [val]; exact valL_adv p cs cs' hs hp
+    -- ---------------------------------------------------------- tryBack
+    · intro cs start es r h hsm
+      simp only [tryBack] at h
+      split at h
+      · cases h; exact ⟨rfl, fun hm => by rcases hm with e | e <;> cases e⟩
+      · rename_i i hi
+        have hile := firstCand_le cs start i hi
+        split at h
+        · cases h; exact ⟨rfl, fun hm => by rcases hm with e | e <;> cases e⟩
+        · rename_i ch hch
+          have hilt : i < cs.length := (List.getElem?_eq_some_iff.mp hch).1
+          obtain ⟨⟨ch', es', r'⟩, h1, h2⟩ := bind_ok' h
+          obtain ⟨hs1, hv1⟩ := ih1 ch es _ h1 (smallOrL_mem hsm hch)
+          have hsk : skelL (cs.set i ch') = skelL cs := skelL_set' cs i ch ch' hch hs1
+          have hget : (cs.set i ch')[i]? = some ch' := by simp [hilt]
+          simp only at h2
+          split at h2
+          · rename_i hall
+            cases h2
+            exact ⟨hsk, fun _ => ⟨i, hile, fun k hk => getElem?_set_other cs i k ch' (by omega), ch, ch', hch, hget,
+              hv1 (Or.inr hall)⟩⟩
+          · split at h2
+            · rename_i hnc
+              obtain ⟨hs3, hsame⟩ := ih3 _ _ _ _ h2
+              refine ⟨hs3.trans hsk, fun _ => ⟨i, hile, fun k hk => ?_, ch, ch', hch, ?_, hv1 (Or.inl hnc)⟩⟩
+              · rw [hsame k (fun hmem => by have := nextCands_gt _ i k hmem; omega)]
+                exact getElem?_set_other cs i k ch' (by omega)
+              · rw [hsame i (fun hmem => by have := nextCands_gt _ i i hmem; omega)]; exact hget
+            · split at h2
+              · cases h2; exact ⟨hsk, fun hm => by rcases hm with e | e <;> cases e⟩
+              · rename_i hi0
+                obtain ⟨hs4, hm4⟩ := ih2 (cs.set i ch') (i - 1) es' _ h2 (by rw [hsk]; exact hsm)
+                refine ⟨hs4.trans hsk, fun hmv => ?_⟩
+                obtain ⟨p, hp, hpre, a, a', ha, ha', hlt⟩ := hm4 hmv
+                have hpi : p < i := by omega
+                refine ⟨p, by omega, fun k hk => ?_, a, a', ?_, ha', hlt⟩
+                · rw [hpre k hk]; exact getElem?_set_other cs i k ch' (by omega)
+                · rw [← getElem?_set_other cs i p ch' (by omega)]; exact ha
+    -- ---------------------------------------------------------- tryFwd
+    · intro cs js es r h
+      cases js with
+      | nil => simp only [tryFwd] at h; cases h; exact ⟨rfl, fun _ _ => rfl⟩
+      | cons j js =>
+        simp only [tryFwd] at h
+        split at h
+        · obtain ⟨a, b⟩ := ih3 cs js es r h
+          exact ⟨a, fun k hk => b k (fun hm => hk (List.mem_cons_of_mem _ hm))⟩
+        · rename_i ch hch
+          obtain ⟨⟨ch', es', b⟩, h1, h2⟩ := bind_ok' h
+          have hs := (accept_skel f).1 ch es _ h1
+          have hsk : skelL (cs.set j ch') = skelL cs := skelL_set' cs j ch ch' hch hs
+          simp only at h2
+          split at h2
+          · cases h2
+            exact ⟨hsk, fun k hk => getElem?_set_other cs j k ch' (fun e => hk (by rw [e]; simp))⟩
+          · obtain ⟨a, b'⟩ := ih3 _ js es' r h2
+            refine ⟨a.trans hsk, fun k hk => ?_⟩
+            rw [b' k (fun hm => hk (List.mem_cons_of_mem _ hm))]
+            exact getElem?_set_other cs j k ch' (fun e => hk (by rw [e]; simp))
+
 end StepModel.Complex.Match
